@@ -382,3 +382,31 @@ def c12(ctx, replay):
                     "not hold: absent or 0); non-trivial = distinct (records, expression)",
                assumptions=["fractional exponents and scalar o scalar expressions are outside the modelled domain (generators avoid them)",
                             "where a comparison does not hold the series may be absent or 0, with or without bool"])
+
+
+@prop("C13")
+def c13(ctx, replay):
+    q = V.tla_str
+    mcs = [dict(name="prec3", module="MC_Prec", consts=dict(MaxOperands=3, OpSet=q("all")), invariants=["ClimbingIsConventional"]),
+           dict(name="prec4", module="MC_Prec", consts=dict(MaxOperands=4, OpSet=q("some")), invariants=["ClimbingIsConventional"])]
+    if ctx.tier != "quick":
+        mcs = [dict(name="prec5", module="MC_Prec", consts=dict(MaxOperands=5, OpSet=q("all")), invariants=["ClimbingIsConventional"], timeout=5400)]
+
+    def nontrivial(scns):
+        # chains with at least two operators (a grouping decision exists)
+        seen = set()
+        for sid, lines in scns:
+            f = json.loads(lines[0])["in"].get("flat")
+            if f and len(f["ops"]) >= 2:
+                seen.add(json.dumps(f, sort_keys=True))
+        return len(seen)
+    return std(ctx, "C13", mc=mcs, harness_cmd="metric", harness_opts=["mode=prec"], trace_module="Trace_Metric",
+               nrand=T(ctx, 3000, 40000), replay=replay, nontrivial=nontrivial, exhaustive=True, chunk_events=20000,
+               rule="step 1: precedence climbing (as intended: inner loop absorbs tighter operators, and equally tight ones only for the "
+                    "right-associative ^) = conventional tree, for every chain of <=3 operands over all 15 operators and <=4 over 9 "
+                    "representative operators (quick) / <=5 over all 15 (thorough), with and without one parenthesised sub-chain; every "
+                    "chain is evaluated as vector(a) op vector(b) ... by Engine.Eval and TLC checks the value against the set of outcomes "
+                    "of the conventionally grouped tree (comparison false: absent or 0); random driver: random operand values and "
+                    "parentheses; non-trivial = distinct chains with >=2 operators",
+               assumptions=["values outside exact arithmetic (fractional exponents, magnitudes beyond 3e4) are 'open': any result accepted",
+                            "known finding C13/equal-prec-right is recognised through the deviation constant EqualPrecRight"])
